@@ -5,6 +5,13 @@ of the `mexp` programs, SVD factors passed as hints and re-validated inside Coq 
 own fold matrices) against `skmatter.linear_model.Ridge2FoldCV` through its public API.
 The model follows the code after fixes/F06_ridge2fold_rank_cut.diff and
 fixes/F25_ridge2fold_scorer_args.diff; on a tree without them the check reports the two defects.
+
+Round 3 (Model/Ridge2FoldFit.v): the model also contains the three rejection guards of `fit`
+(family "guard": invalid regularization_method / alpha_type strings, relative grids at and beyond
+the ends of [0, 1)), `scoring=None`, the fold choice for every KFold configuration (cv=None, integer cv,
+KFold objects; the split is computed inside Coq - for shuffled ones from the permutation the random
+state draws, Model/Ridge2FoldShuffle.v - and sklearn's first yield is only cross-checked) and the shapes of cv_values_/coef_/predict for 1-D and 2-D y; a share of
+the fits re-uses an estimator object that was fitted on other data before (refit path).
 """
 import math
 
@@ -83,15 +90,62 @@ def gen_case(rng, quick):
         if rng.random() < 0.4:               # only the first yield is used
             splits.append([te, tr])
         cv = dict(kind="explicit", splits=splits)
-    else:
+    elif r < 0.93:
         sh = rng.random() < 0.5
         cv = dict(kind="kfold", n_splits=rng.choice([2, 3]), shuffle=sh,
                   random_state=rng.randint(0, 10 ** 6) if sh else None)
+    else:
+        cv = dict(kind="int", n_splits=rng.choice([2, 3, 4]))     # check_cv(int) -> unshuffled KFold
     case = dict(family=fam, X=X, Y=Y, y1d=y1d, alphas=alphas, relative=relative,
                 method=rng.choice(["tikhonov", "cutoff"]), scoring=rng.choice(SCORERS),
                 cv=cv, n_jobs=(2 if rng.random() < 0.04 else None),
-                Xnew=[[_normal(rng) for _ in range(p)] for _ in range(3)])
+                Xnew=[[_normal(rng) for _ in range(p)] for _ in range(rng.choice([1, 3, 3, 4]))])
+    # refit path: the estimator object is first fitted on other data (derived from the case) with
+    # another configuration, then re-configured with set_params and fitted on the case
+    case["refit"] = rng.random() < 0.12
+    case["alphas_as"] = rng.choice(["list", "list", "tuple", "ndarray"])
+    if case["method"] == "cutoff" and not relative and rng.random() < 0.3:
+        plant_exact_threshold(case, rng)
     return case
+
+
+def plant_exact_threshold(case, rng):
+    """Strictness of the cut-off `s > alpha`: make (absolute) grid values bitwise EQUAL to
+    singular values of a fold and/or of the full X, as numpy computes them (a grid taken from
+    np.linalg.svd, as the library's own tests do).  The implementation decomposes the same float64
+    matrices with the same LAPACK call; that this is reproducible bit for bit is checked here on
+    the spot (two decompositions of fresh copies), otherwise nothing is planted."""
+    X = np.array(case["X"], dtype=float)
+    rc = rcond_of(X)
+    f1, f2 = splits_of(case)[0]
+    pools = []
+    for rows in (list(f1), list(f2), list(range(X.shape[0]))):
+        s_a = np.linalg.svd(X[np.array(rows)], full_matrices=False)[1]
+        s_b = np.linalg.svd(np.array(case["X"], dtype=float)[rows], full_matrices=False)[1]
+        if not np.array_equal(s_a, s_b):
+            return False
+        pools.append([float(v) for v in s_a if v > 1e4 * rc and v > 1e-8 * s_a[0]])
+    fold_pool, full_pool = pools[0] + pools[1], pools[2]
+    al = list(case["alphas"])
+    planted = []
+    r = rng.random()
+    if r < 0.4 and fold_pool:                      # one grid entry = a singular value of a fold
+        a = rng.choice(fold_pool)
+        al[rng.randrange(len(al))] = a
+        planted = [a]
+    elif r < 0.7 and full_pool:                    # the whole grid from the singular values of X
+        planted = rng.sample(full_pool, rng.randint(1, min(4, len(full_pool))))
+        al = list(planted)
+    elif fold_pool or full_pool:                   # a mixed grid: folds, X and ordinary values
+        pool = fold_pool + full_pool
+        planted = rng.sample(pool, rng.randint(1, min(3, len(pool))))
+        al = planted + al[: rng.randint(0, 2)]
+        rng.shuffle(al)
+    if not planted:
+        return False
+    case["alphas"] = al
+    case["exact_thrs"] = planted
+    return True
 
 
 def _cv_object(spec):
@@ -100,6 +154,8 @@ def _cv_object(spec):
         return None
     if spec["kind"] == "explicit":
         return [(np.array(a), np.array(b)) for a, b in spec["splits"]]
+    if spec["kind"] == "int":
+        return int(spec["n_splits"])
     return KFold(n_splits=spec["n_splits"], shuffle=spec["shuffle"], random_state=spec["random_state"])
 
 
@@ -115,6 +171,12 @@ def splits_of(case):
     return [(list(map(int, a)), list(map(int, b))) for a, b in cv.split(X)]
 
 
+def _alphas_arg(case):
+    al = [float(x) for x in case["alphas"]]
+    kind = case.get("alphas_as", "list")
+    return tuple(al) if kind == "tuple" else np.array(al) if kind == "ndarray" else al
+
+
 def run_impl(case):
     from skmatter.linear_model import Ridge2FoldCV
     X = np.array(case["X"], dtype=float)
@@ -122,20 +184,111 @@ def run_impl(case):
     y = Y[:, 0] if case["y1d"] else Y
     spec = case["cv"]
     try:
-        m = Ridge2FoldCV(alphas=list(case["alphas"]),
-                         alpha_type="relative" if case["relative"] else "absolute",
-                         regularization_method=case["method"], cv=_cv_object(spec),
-                         scoring=case["scoring"], random_state=spec.get("random_state") if spec["kind"] == "none" else None,
-                         shuffle=spec.get("shuffle", True) if spec["kind"] == "none" else True,
-                         n_jobs=case["n_jobs"])
+        kw = dict(alphas=_alphas_arg(case),
+                  alpha_type="relative" if case["relative"] else "absolute",
+                  regularization_method=case["method"], cv=_cv_object(spec),
+                  scoring=case["scoring"], random_state=spec.get("random_state") if spec["kind"] == "none" else None,
+                  shuffle=spec.get("shuffle", True) if spec["kind"] == "none" else True,
+                  n_jobs=case["n_jobs"])
+        if case.get("refit"):
+            # another data set (one sample and, if possible, one feature fewer; other targets),
+            # the opposite method / default grid: nothing of it may survive the second fit
+            p = X.shape[1]
+            Xo = X[::-1][1:, : max(1, p - 1)] * 3.0 + 1.0
+            Yo = np.cos(np.arange(Xo.shape[0] * 2, dtype=float)).reshape(-1, 2)
+            m = Ridge2FoldCV(regularization_method="cutoff" if case["method"] == "tikhonov" else "tikhonov",
+                             shuffle=False)
+            m.fit(Xo, Yo)
+            m.predict(Xo)
+            m.set_params(**dict(kw, alphas=np.asarray(kw["alphas"], dtype=float)))
+        else:
+            m = Ridge2FoldCV(**kw)
         m.fit(X, y)
         pred = m.predict(np.array(case["Xnew"], dtype=float))
         coef = np.asarray(m.coef_, dtype=float)
         return dict(cv=[float(v) for v in m.cv_values_], alpha=float(m.alpha_), best=float(m.best_score_),
                     coef=np.atleast_2d(coef).tolist(), coef_ndim=int(coef.ndim),
-                    pred=(pred.reshape(len(case["Xnew"]), -1)).tolist(), pred_ndim=int(np.ndim(pred)))
+                    pred=(pred.reshape(len(case["Xnew"]), -1)).tolist(), pred_ndim=int(np.ndim(pred)),
+                    coef_shape=[int(v) for v in coef.shape], pred_shape=[int(v) for v in np.shape(pred)],
+                    n_cv=len(m.cv_values_))
     except Exception as e:  # noqa
         return dict(error=type(e).__name__, error_msg=str(e)[:300])
+
+
+# ----------------------------------------------------------------------------- guard family
+GUARD_METHODS = ["tikhonov", "cutoff", "ridge", "Tikhonov", "cut-off", ""]
+GUARD_ATYPES = ["absolute", "relative", "rel", "Relative", "abs"]
+ONE_BELOW = float(np.nextafter(1.0, 0.0))
+ONE_ABOVE = float(np.nextafter(1.0, 2.0))
+GUARD_POOL_REL = [0.0, -0.0, 5e-324, 1e-12, 0.25, 0.5, 0.9, ONE_BELOW, 1.0, ONE_ABOVE, 2.0, 1e3,
+                  -5e-324, -1e-12, -0.5, -3.0]
+GUARD_POOL_ABS = [0.0, 1e-12, 1e-3, 0.5, ONE_BELOW, 1.0, ONE_ABOVE, 2.0, 10.0, 1e3]
+
+
+def gen_guard_case(rng):
+    """A small, well-conditioned data set with a configuration at or beyond the edge of what fit
+    accepts.  Absolute grids stay non-negative (fit has no guard there and a negative Tikhonov
+    alpha can produce non-finite predictions, which sklearn's scorer rejects)."""
+    r = rng.random()
+    method = rng.choice(GUARD_METHODS[:2]) if r < 0.7 else rng.choice(GUARD_METHODS)
+    r = rng.random()
+    atype = rng.choice(GUARD_ATYPES[:2]) if r < 0.75 else rng.choice(GUARD_ATYPES)
+    if atype == "absolute":
+        pool = GUARD_POOL_ABS
+    elif rng.random() < 0.35:
+        pool = [x for x in GUARD_POOL_REL if 0.0 <= x < 1.0]        # a valid relative grid
+    else:
+        pool = GUARD_POOL_REL
+    alphas = [rng.choice(pool) for _ in range(rng.randint(1, 4))]
+    n, p = rng.randint(6, 9), rng.randint(1, 3)
+    X = [[_normal(rng) for _ in range(p)] for _ in range(n)]
+    y = [[sum(row) + 0.1 * _normal(rng)] for row in X]
+    return dict(guard=True, X=X, Y=y, method=method, atype=atype, alphas=alphas,
+                alphas_as=rng.choice(["list", "tuple", "ndarray"]), scoring=rng.choice(SCORERS),
+                y1d=rng.random() < 0.5)
+
+
+def guard_ids(case):
+    mid = GUARD_METHODS.index(case["method"]) if case["method"] in GUARD_METHODS[:2] else 2 + GUARD_METHODS.index(case["method"])
+    aid = GUARD_ATYPES.index(case["atype"]) if case["atype"] in GUARD_ATYPES[:2] else 2 + GUARD_ATYPES.index(case["atype"])
+    return mid, aid
+
+
+def run_guard_impl(case):
+    """Outcome code of fit: 0 returned, 1/2/3 ValueError of the method / alpha-type / relative-range
+    guard (by message), 4 any other exception."""
+    from skmatter.linear_model import Ridge2FoldCV
+    X = np.array(case["X"], dtype=float)
+    Y = np.array(case["Y"], dtype=float)
+    try:
+        m = Ridge2FoldCV(alphas=_alphas_arg(case), alpha_type=case["atype"], regularization_method=case["method"],
+                         scoring=case["scoring"], shuffle=False)
+        m.fit(X, Y[:, 0] if case["y1d"] else Y)
+        ok = bool(np.all(np.isfinite(m.coef_)) and len(m.cv_values_) == len(case["alphas"]))
+        return dict(code=0 if ok else 4, msg="" if ok else "fit returned a non-finite coef_ or a wrong number of cv values")
+    except ValueError as e:
+        t = str(e)
+        code = (1 if "regularization method" in t else 2 if "alpha type" in t
+                else 3 if "relative alphas" in t else 4)
+        return dict(code=code, msg=t[:200])
+    except Exception as e:  # noqa
+        return dict(code=4, msg="%s: %s" % (type(e).__name__, str(e)[:200]))
+
+
+def guard_expected(case):
+    """Independent statement of the documented contract (search oracle for the guard family)."""
+    if case["method"] not in ("tikhonov", "cutoff"):
+        return 1
+    if case["atype"] not in ("absolute", "relative"):
+        return 2
+    if case["atype"] == "relative" and any((x < 0) or (x >= 1) for x in case["alphas"]):
+        return 3
+    return 0
+
+
+def guard_coq(case, rec):
+    mid, aid = guard_ids(case)
+    return "guard_case_ok %d%%nat %d%%nat %s %d%%nat" % (mid, aid, C.flist(case["alphas"]), rec["code"])
 
 
 # ----------------------------------------------------------------------------- hints and gating mirror
@@ -226,9 +379,13 @@ def gates(case, splits, hnt):
     a_cv, a_o = atols(case)
     s1, s2, s, sal, rc = m64["thresholds"]
     near = False
+    planted = set(case.get("exact_thrs") or ([case["exact_thr"]] if case.get("exact_thr") is not None else []))
     for sv in (s1, s2, s):
         for thr in list(sal if case["method"] == "cutoff" else []) + [rc]:
-            if np.any(np.abs(sv - thr) <= 1e-9 * np.maximum(np.abs(sv), abs(thr))) and thr > 0:
+            close = np.abs(sv - thr) <= 1e-9 * np.maximum(np.abs(sv), abs(thr))
+            if float(thr) in planted:
+                close = close & (sv != thr)      # a planted EXACT tie is decided identically on both sides
+            if np.any(close) and thr > 0:
                 near = True
     finite = bool(np.all(np.isfinite(m64["cv"])) and np.all(np.isfinite(m64["coef"])))
     gcv = [bool(finite and not near and np.isfinite(x) and _rel([x], [z], a_cv) <= GATE)
@@ -261,23 +418,60 @@ def _svd_coq(h):
     return "(mk_svd %s %s %s)" % (C.fmat(U.tolist()), C.flist(s.tolist()), C.fmat(V.tolist()))
 
 
+def shuffle_perm(n, seed):
+    """The permutation a shuffled KFold draws (sklearn: check_random_state(seed).shuffle(arange(n)));
+    the only oracle input of the shuffled fold choice.  Cross-checked on every case: component 7
+    compares the split the model derives from it with sklearn's first yield."""
+    from sklearn.utils import check_random_state
+    idx = np.arange(n)
+    check_random_state(seed).shuffle(idx)
+    return [int(i) for i in idx]
+
+
+def cv_spec_coq(case, splits):
+    """How the model obtains the folds: (driver head, computed inside Coq?).  Every KFold is
+    computed inside Coq: unshuffled ones outright, shuffled ones from the drawn permutation."""
+    spec = case["cv"]
+    n = len(case["X"])
+    if spec["kind"] in ("none", "kfold") and spec["shuffle"]:
+        k = 2 if spec["kind"] == "none" else spec["n_splits"]
+        return ("r2f_fit_ok_shuffled", "%d%%nat %s" % (k, C.natlist(shuffle_perm(n, spec["random_state"])))), True
+    if spec["kind"] == "none":
+        return ("r2f_fit_ok", "(CvKFold 2)"), True
+    if spec["kind"] in ("int", "kfold"):
+        return ("r2f_fit_ok", "(CvKFold %d)" % spec["n_splits"]), True
+    return ("r2f_fit_ok", "(CvGiven %s)" % _splits_coq(splits)), False
+
+
+def _splits_coq(splits):
+    return "[" + "; ".join("(%s, %s)" % (C.natlist(a), C.natlist(b)) for a, b in splits) + "]"
+
+
 def case_coq(case, splits, hnt, g, rec):
     a_cv, a_o = atols(case)
-    sid = {None: 0, "neg_mean_squared_error": 0, "neg_root_mean_squared_error": 1, "r2": 2}[case["scoring"]]
-    sp = "[" + "; ".join("(%s, %s)" % (C.natlist(a), C.natlist(b)) for a, b in splits) + "]"
-    c = "(mk_case %s %s %s %s %s %s %d%%nat %s %s %s %s)" % (
+    sid = {"neg_mean_squared_error": 0, "neg_root_mean_squared_error": 1, "r2": 2}
+    scoring = "None" if case["scoring"] is None else "(Some %d%%nat)" % sid[case["scoring"]]
+    spec, modelled = cv_spec_coq(case, splits)
+    # for a model-computed split the oracle's yields are not given to the model at all
+    sp = "[]" if modelled else _splits_coq(splits)
+    c = "(mk_case %s %s %s %s %s %s 0%%nat %s %s %s %s)" % (
         C.fmat(case["X"]), C.fmat(case["Y"]), sp, C.flist(case["alphas"]),
-        "true" if case["relative"] else "false", "true" if case["method"] == "cutoff" else "false", sid,
+        "true" if case["relative"] else "false", "true" if case["method"] == "cutoff" else "false",
         _svd_coq(hnt[0]), _svd_coq(hnt[1]), _svd_coq(hnt[2]), C.fmat(case["Xnew"]))
     obs = "(mk_out %s %s %s %s %s)" % (C.flist(rec["cv"]), C.fl(rec["alpha"]), C.fl(rec["best"]),
                                        C.fmat(rec["coef"]), C.fmat(rec["pred"]))
-    return "r2f_case_ok %s %s %s %s %s %s %s %s %s" % (
-        c, C.fl(RTOL), C.fl(a_cv), C.fl(a_o), C.blist(g["gcv"]),
+    osh = "(mk_shapes %d%%nat %s %s)" % (rec["n_cv"], C.natlist(rec["coef_shape"]), C.natlist(rec["pred_shape"]))
+    first = "(%s, %s)" % (C.natlist(splits[0][0]), C.natlist(splits[0][1]))
+    return "%s %s %s" % (spec[0], c, spec[1]) + " %s %s %s %s %s %s %s %s %s %s %s %s" % (
+        scoring, "true" if case["y1d"] else "false", first,
+        C.fl(RTOL), C.fl(a_cv), C.fl(a_o), C.blist(g["gcv"]),
         "true" if g["gsel"] else "false", "true" if g["gcoef"] else "false",
-        "true" if g["gpred"] else "false", obs)
+        "true" if g["gpred"] else "false", obs, osh)
 
 
-COMPONENTS = ["svd-hint hypotheses", "cv_values_", "alpha_", "best_score_", "coef_", "predict"]
+NCOMP = 8
+COMPONENTS = ["svd-hint hypotheses", "cv_values_", "alpha_", "best_score_", "coef_", "predict",
+              "shapes of cv_values_/coef_/predict", "model's KFold split vs sklearn's first yield"]
 
 
 # ----------------------------------------------------------------------------- property oracle (search only)
@@ -367,6 +561,11 @@ def oracle(case, rec, splits=None, g=None):
         return "predict(Xnew) differs from Xnew @ coef_.T", None
     if case["y1d"] and (rec["coef_ndim"] != 1 or rec["pred_ndim"] != 1):
         return "1-D y but coef_/predict are not 1-D", None
+    p, t, nn = X.shape[1], Y.shape[1], len(case["Xnew"])
+    want_sh = ([p], [nn]) if case["y1d"] else ([t, p], [nn, t])
+    if "coef_shape" in rec and (rec["coef_shape"], rec["pred_shape"]) != want_sh:
+        return "coef_/predict have shapes %r/%r, expected %r/%r" % (
+            rec["coef_shape"], rec["pred_shape"], want_sh[0], want_sh[1]), None
     return None
 
 
@@ -383,14 +582,20 @@ def in_region(case, hnt, reported):
 
 # ----------------------------------------------------------------------------- run
 def run(ctx):
+    import time
+    t0 = time.time()
     po = C.proof_obligations(ctx.prop)
-    ncases = 600 if ctx.quick else 12000
+    phase = dict(proof_obligations_incl_build_lock_wait=round(time.time() - t0, 1))
+    ncases = 1500 if ctx.quick else 10000
+    nguard = 240 if ctx.quick else 2400
     cases, recs, spl, hnts, gts = [], [], [], [], []
     stats = dict(families={}, methods={}, scorers={}, cv_kinds={}, alpha_type={}, y1d=0, n_jobs2=0,
                  errors=0, rank_cut_fold=0, rank_cut_full=0, cutoff_active=0, exact_tie=0,
                  skipped=dict(cv_entries=0, selection=0, coef=0, predict=0, near_threshold=0, near_tie=0),
                  compared=dict(cv_entries=0, selection=0, coef=0, predict=0),
-                 hint_residual_max=0.0, shapes={})
+                 hint_residual_max=0.0, shapes={}, refit=0, alphas_as={}, split_computed_in_model=0,
+                 xnew_rows={}, exact_threshold_planted=0, exact_threshold_compared=0,
+                 exact_threshold_selected_full=0)
     for _ in range(ncases):
         c = gen_case(ctx.rng, ctx.quick)
         r = run_impl(c)
@@ -401,9 +606,16 @@ def run(ctx):
         for k, v in (("families", c["family"]), ("methods", c["method"]), ("scorers", str(c["scoring"])),
                      ("cv_kinds", c["cv"]["kind"] + ("/shuffle" if c["cv"].get("shuffle") else "")),
                      ("alpha_type", "relative" if c["relative"] else "absolute"),
-                     ("shapes", "%s" % ("n<=p" if len(c["X"]) <= len(c["X"][0]) else "n>p"))):
+                     ("shapes", "%s" % ("n<=p" if len(c["X"]) <= len(c["X"][0]) else "n>p")),
+                     ("alphas_as", c["alphas_as"]), ("xnew_rows", str(len(c["Xnew"])))):
             stats[k][v] = stats[k].get(v, 0) + 1
         stats["y1d"] += c["y1d"]
+        stats["refit"] += bool(c.get("refit"))
+        stats["exact_threshold_planted"] += bool(c.get("exact_thrs"))
+        stats["exact_threshold_compared"] += bool(c.get("exact_thrs") and all(g["gcv"]))
+        stats["exact_threshold_selected_full"] += bool(
+            c.get("exact_thrs") and g["gcoef"] and g["m64"]["sal"][g["m64"]["best"]] in h[2][1])
+        stats["split_computed_in_model"] += cv_spec_coq(c, s)[1]
         stats["n_jobs2"] += c["n_jobs"] == 2
         stats["errors"] += "error" in r
         n1, n2, nf = g["ncut"]
@@ -421,6 +633,7 @@ def run(ctx):
             sal = g["m64"]["sal"]
             stats["cutoff_active"] += any(int((hh[1] > a).sum()) < nn for a in sal
                                           for hh, nn in ((h[0], n1), (h[1], n2)))
+    phase["generate_and_run_implementation"] = round(time.time() - t0 - sum(phase.values()), 1)
     idx = [i for i, r in enumerate(recs) if "error" not in r]
     # shards of bounded size
     shards, groups, cur, cur_sz, texts = [], [], [], 0, {}
@@ -441,24 +654,30 @@ def run(ctx):
         bad = dict(recs[i0])
         bad["cv"] = [recs[i0]["cv"][0] * 1.001 + 1e6 * atols(cases[i0])[0]] + list(recs[i0]["cv"][1:])
         g_all = dict(gts[i0], gcv=[True] * len(gts[i0]["gcv"]))
-        body = ";\n ".join([texts[i] for i in gidx] + [case_coq(cases[i0], spl[i0], hnts[i0], g_all, bad)])
+        # second self-test: the same case with a wrong coef_ shape (an extra leading axis)
+        bad2 = dict(recs[i0], coef_shape=[1] + list(recs[i0]["coef_shape"]))
+        body = ";\n ".join([texts[i] for i in gidx] + [case_coq(cases[i0], spl[i0], hnts[i0], g_all, bad),
+                                                       case_coq(cases[i0], spl[i0], hnts[i0], gts[i0], bad2)])
         shards.append(C.SHARD_HEAD + "From Coq Require Import List PrimFloat.\nImport ListNotations.\n"
-                      "From Verif Require Import MExp Ridge2Fold.\nOpen Scope float_scope.\n"
+                      "From Verif Require Import MExp Ridge2Fold Ridge2FoldFit Ridge2FoldShuffle.\nOpen Scope float_scope.\n"
                       "Definition verdicts : list (list bool) := [\n %s].\n"
-                      "Eval vm_compute in (failing_flat verdicts).\n" % body)
+                      "Eval vm_compute in (failing_flat8 verdicts).\n" % body)
     outs = C.run_shards(ctx.prop, shards, par=1)
+    phase["coq_shards"] = round(time.time() - t0 - sum(phase.values()), 1)
     mismatched, corr_broken = {}, []
     for gidx, (rc, out) in zip(groups, outs):
         lists = C.parse_nat_lists(out)
         if rc != 0 or len(lists) != 1:
             corr_broken.append(out[-1500:])
             continue
-        selftest = 6 * len(gidx) + 1            # cv component of the injected case
-        if selftest not in lists[0]:
-            corr_broken.append("self-test: the injected wrong observation was not flagged\n" + out[-500:])
+        selftest = NCOMP * len(gidx) + 1            # cv component of the injected case
+        selftest2 = NCOMP * (len(gidx) + 1) + 6     # shape component of the second injected case
+        if selftest not in lists[0] or selftest2 not in lists[0]:
+            corr_broken.append("self-test: an injected wrong observation (cv value / coef_ shape) was not flagged\n"
+                               + out[-500:])
         for k in lists[0]:
-            if k // 6 < len(gidx):
-                mismatched.setdefault(gidx[k // 6], []).append(COMPONENTS[k % 6])
+            if k // NCOMP < len(gidx):
+                mismatched.setdefault(gidx[k // NCOMP], []).append(COMPONENTS[k % NCOMP])
     for i, r in enumerate(recs):
         if "error" in r:
             mismatched.setdefault(i, []).append("raised")
@@ -493,6 +712,64 @@ def run(ctx):
                                % ", ".join(mismatched[i]), rep, found_input=False)
     for txt in corr_broken:
         C.report_violation(ctx, "correspondence shard did not evaluate", dict(coq_output=txt), found_input=False)
+    # ---- guard family: rejected / boundary configurations (Model/Ridge2FoldFit.v fit_guard)
+    gcases = [gen_guard_case(ctx.rng) for _ in range(nguard)]
+    grecs = [run_guard_impl(c) for c in gcases]
+    gstats = dict(cases=len(gcases), outcome={}, methods={}, alpha_types={}, boundary_values=0)
+    for c, r in zip(gcases, grecs):
+        gstats["outcome"][str(r["code"])] = gstats["outcome"].get(str(r["code"]), 0) + 1
+        gstats["methods"][c["method"]] = gstats["methods"].get(c["method"], 0) + 1
+        gstats["alpha_types"][c["atype"]] = gstats["alpha_types"].get(c["atype"], 0) + 1
+        gstats["boundary_values"] += any(x in (1.0, ONE_BELOW, ONE_ABOVE, 5e-324, -5e-324) or x == 0.0
+                                         for x in c["alphas"])
+    # self-test: the first case again with a wrong outcome code; Coq must flag it
+    inj = dict(grecs[0], code=(grecs[0]["code"] + 1) % 4) if gcases else None
+    gbody = ";\n ".join([guard_coq(c, r) for c, r in zip(gcases, grecs)] + ([guard_coq(gcases[0], inj)] if gcases else []))
+    gshard = (C.SHARD_HEAD + "From Coq Require Import List PrimFloat.\nImport ListNotations.\n"
+              "From Verif Require Import MExp Ridge2Fold Ridge2FoldFit.\nOpen Scope float_scope.\n"
+              "Definition verdicts : list bool := [\n %s].\n"
+              "Eval vm_compute in (failing_bools 0 verdicts).\n" % gbody)
+    (grc, gout), = C.run_shards(ctx.prop + "g", [gshard], par=1)
+    glists = C.parse_nat_lists(gout)
+    g_bad = []
+    if grc != 0 or len(glists) != 1:
+        C.report_violation(ctx, "correspondence shard (guard family) did not evaluate", dict(coq_output=gout[-1500:]),
+                           found_input=False)
+    else:
+        if len(gcases) not in glists[0]:
+            C.report_violation(ctx, "self-test: the injected wrong outcome code of the guard family was not flagged",
+                               dict(coq_output=gout[-500:]), found_input=False)
+        g_bad = [k for k in glists[0] if k < len(gcases)]
+    n_g = 0
+    for k in g_bad:
+        n_g += 1
+        if n_g > 3:
+            continue
+        c, r = gcases[k], grecs[k]
+        want = guard_expected(c)
+        names = {0: "fit returns", 1: "the regularization-method ValueError", 2: "the alpha-type ValueError",
+                 3: "the relative-range ValueError", 4: "another failure"}
+        rep = dict(case=c, observed=r, correspondence="guard_case_ok (Model/Ridge2FoldFit.v)")
+        if want != r["code"]:
+            C.report_violation(ctx, "C10 fails on the implementation: fit(regularization_method=%r, alpha_type=%r, "
+                               "alphas=%r): observed outcome: %s%s; expected: %s"
+                               % (c["method"], c["atype"], c["alphas"], names[r["code"]],
+                                  " (%s)" % r["msg"][:80] if r["msg"] else "", names[want]),
+                               rep, found_input=True)
+        else:
+            C.report_violation(ctx, "correspondence Ridge2FoldCV.fit guards: model and implementation disagree",
+                               rep, found_input=False)
+    phase["guard_family"] = round(time.time() - t0 - sum(phase.values()), 1)
+    # ---- probe (recorded, not a verdict): an INTEGER relative grid, e.g. alphas=[0], makes
+    # `scaled_alphas *= max(...)` raise a casting error (fixes/F29_ridge2fold_integer_relative_alphas.diff)
+    probe = None
+    try:
+        from skmatter.linear_model import Ridge2FoldCV
+        Xp = np.array([[1.0, 0.5], [0.0, 1.0], [2.0, 1.0], [1.0, 3.0], [0.5, 0.5], [3.0, 1.0]])
+        Ridge2FoldCV(alphas=[0], alpha_type="relative", shuffle=False).fit(Xp, Xp @ np.array([1.0, -1.0]))
+        probe = "fits"
+    except Exception as e:  # noqa
+        probe = "raises %s" % type(e).__name__
     # the refutation witness of the unrepaired behaviour (Findings/F06_ridge2fold_rank.v) must still check
     import os
     ffile = os.path.join(C.COQ, "Findings", "F06_ridge2fold_rank.v")
@@ -526,17 +803,22 @@ def run(ctx):
                trusted_base=C.TRUSTED_BASE_COMMON + [
                    "numpy.linalg.svd (LAPACK) as oracle: enters theorems only through U^T U = I, V^T V = I, "
                    "X = U diag(s) V^T, s sorted and non-negative; residuals re-evaluated inside Coq on every case",
-                   "sklearn KFold/check_cv (which indices a split yields) and sklearn's scorers "
+                   "sklearn KFold/check_cv (which indices a split yields; for every KFold configuration the split is "
+                   "computed by the model - for shuffled ones from the permutation numpy's RandomState draws - and "
+                   "sklearn's first yield is only cross-checked; explicit iterables are oracle input) and sklearn's scorers "
                    "(re-implemented in the float model for neg MSE / neg RMSE / r2; abstract in the theorems)",
                    "binary64 rounding: model and implementation compared at rtol 1e-7; components whose float64 and "
                    "extended-precision evaluations differ by more than 1e-10 are skipped and counted"],
-               evaluations=len(cases), distinct_nontrivial=nontrivial,
+               evaluations=len(cases) + len(gcases), distinct_nontrivial=nontrivial,
                rule="distinct input with >= 2 alphas whose alpha selection was compared (not gated) and which "
                     "exercises a relative grid, the cut-off method or an active rcond rank cut",
-               traces_validated_against_impl=len(idx) - len([i for i in mismatched if i in idx]),
+               traces_validated_against_impl=len(idx) - len([i for i in mismatched if i in idx])
+               + len(gcases) - len(g_bad),
                samples=[slim(i) for i in idx[:2]],
                distribution=stats, anchor_drift=changed, oracle_runs=n_search,
-               findings=dict(C10_rank_refuted=bool(fok and not fscan)),
+               findings=dict(C10_rank_refuted=bool(fok and not fscan),
+                             F29_integer_relative_grid_alphas_eq_0=probe),
+               guard_family=dict(gstats, disagreements=len(g_bad)), phase_seconds=phase,
                mismatches_explained_by_reported_defect=explained,
                mismatches_total=len(mismatched), oracle_failures_unkeyed=n_found, oracle_accepts_unkeyed=n_unkeyed,
                tolerances=dict(rtol=RTOL, gate=GATE, hint_eps=2.0 ** -36))
@@ -548,6 +830,11 @@ def run(ctx):
 
 def replay(ctx, obj):
     c = obj["case"]
+    if c.get("guard"):
+        r = run_guard_impl(c)
+        want = guard_expected(c)
+        print("replay: fit outcome code %d (%s), expected %d" % (r["code"], r["msg"][:100], want))
+        return 1 if r["code"] != want else 0
     r = run_impl(c)
     res = oracle(c, r)
     print("replay:", res[0] if res else "property holds on this input now")
